@@ -4,6 +4,8 @@ import (
 	"bytes"
 	"crypto/sha256"
 	"fmt"
+	"strings"
+	"sync"
 
 	"github.com/fxamacker/cbor"
 	"github.com/privacybydesign/gabi"
@@ -70,6 +72,37 @@ func ksInputsOf(v any) []ksIn {
 
 func init() {
 	generators["C14"] = genC14
+	// a keyshare server answers the second messages of many sessions at the same time: every honest
+	// request gets its answer, with the challenge the user computed
+	executors["ks-concurrent"] = func(o Op) string {
+		reqs, _ := o["requests"].([]any)
+		rounds := o.int("rounds")
+		var mu sync.Mutex
+		bad, total := 0, 0
+		var wg sync.WaitGroup
+		for _, r := range reqs {
+			req := Op(r.(map[string]any))
+			want := strings.SplitN(req.str("label"), " ", 2)[0]
+			wg.Add(1)
+			go func() {
+				defer wg.Done()
+				for k := 0; k < rounds; k++ {
+					got := safely(func() string { return executors["ks-response"](req) })
+					mu.Lock()
+					total++
+					if strings.SplitN(got, " ", 2)[0] != want {
+						bad++
+					}
+					mu.Unlock()
+				}
+			}()
+		}
+		wg.Wait()
+		if bad > 0 {
+			return fmt.Sprintf("refused-or-wrong %d of %d", bad, total)
+		}
+		return "ok"
+	}
 	executors["ks-response"] = func(o Op) string {
 		keys := map[string]*gabikeys.PublicKey{}
 		for _, id := range strsOf(o["keys"]) {
@@ -111,6 +144,14 @@ func genC14(g *Rng, tier string, emit func(Op)) {
 		emit(declKey(k))
 	}
 	kssSecret, _ := gabi.NewKeyshareSecret()
+	var honestReqs []any
+	defer func() {
+		rounds := 30
+		if tier == "thorough" {
+			rounds = 300
+		}
+		emit(Op{"op": "ks-concurrent", "class": "concurrent-sessions", "label": "ok", "nomodel": true, "requests": honestReqs, "rounds": rounds})
+	}()
 	userSecret, _ := gabi.GenerateSecretAttribute()
 	for r := 0; r < rounds; r++ {
 		n := 1 + r%4
@@ -211,7 +252,11 @@ func genC14(g *Rng, tier string, emit func(Op)) {
 			// first, so that it directly follows the previous session's requests (explicit context)
 			emit(ksOp(partIDs, kssSecret, kssRand, hw, nil, nonce, respReq.UserResponse, issig, in, "honest-nil-context", honest))
 		}
-		emit(ksOp(partIDs, kssSecret, kssRand, hw, context, nonce, respReq.UserResponse, issig, in, "honest", honest))
+		ho := ksOp(partIDs, kssSecret, kssRand, hw, context, nonce, respReq.UserResponse, issig, in, "honest", honest)
+		emit(ho)
+		if len(honestReqs) < 16 {
+			honestReqs = append(honestReqs, cloneTree(map[string]any(ho)))
+		}
 		// the joint proof list verifies for total secret = user + server share
 		respReq.Context = context // the caller fills in the session's context (absent = 1)
 		proofP, err := gabi.KeyshareResponse(kssSecret, kssRand, commReq, respReq, part)
